@@ -7,7 +7,7 @@ ALG = ["algebra/main.cpp"] + ["algebra/c%s.cpp" % n for n in ("01", "02", "03", 
 
 SOLVER = ["solver/main.cpp", "solver/c04.cpp", "solver/c05.cpp", "solver/c10.cpp", "solver/c17.cpp"]
 
-LIFE = ["life/main.cpp", "life/c14.cpp", "life/c16.cpp", "life/interp.cpp", "life/stubs.cpp", "common/ledger.cpp"]
+LIFE = ["life/main.cpp", "life/c14.cpp", "life/c16.cpp", "life/interp.cpp", "life/c09_main.cpp", "life/c09_ew.cpp", "life/c09_comm.cpp", "life/c09_evol.cpp", "common/ledger.cpp"]
 
 PROPS = {
     "C01": dict(
@@ -215,6 +215,20 @@ PROPS = {
         assumptions=["TSan sees only the interleavings that occur and only instrumented code (GSL internals are invisible; the library does not share GSL objects across threads)"],
         timeout=dict(quick=1500, thorough=7200),
     ),
+    "C09": dict(
+        harness="h_life", sources=LIFE, level="exploration", exhaustive=True,
+        variants=dict(quick=[V("asan", 8, 0.5), V("opt", 8), V("optavx", 4)], thorough=[V("asan", 12, 0.25), V("opt", 8), V("optavx", 8), V("align", 8, 0.5)]),
+        rule="the full cross product of the discrete axes is enumerated: 20 expression shapes (4 sum, 2 difference, 2 negation, 4 scalar-product, commutator, anticommutator, Evolve(op,t), "
+             "Evolve(table), 4 user element-wise overloads, i.e. every value-category overload) x {=,+=,-=,construct} x target {empty, owned same d, owned other d, external same d, external other d} "
+             "x alias {none, v is a, v is b, v is both, v and a different objects on one user buffer} x guarantee set {none, NoAlias, EqualSizes, both, +AlignedStorage} x d=2..6 = 50000 cells; "
+             "inadmissible cells and cells whose guarantee would be false (alignment measured on the actual addresses) are skipped and counted; values random per cell (quick 2 draws; asan 1). "
+             "Oracle: the property's own definition - op evaluated into a fresh temporary from fresh copies, then =,+=,-= applied component-wise; NaN pre-fill for plain assignment; documented "
+             "exceptions exactly and with the target untouched; operands unchanged unless consumed; external targets still bound; zero allocations in the documented no-allocation cases.",
+        floors=dict(quick={"no_allocation_cases": 3000, "documented_exceptions": 3000, "guarantee.7": 300, "alias.v is a and b": 500, "alias.v and a are different objects on one user buffer": 500,
+                           "target.external other d": 1000, "shape.a.Evolve(table)": 500, "form.SU_vector v(": 500},
+                    thorough={"no_allocation_cases": 100000}),
+        assumptions=["correctness of the operations themselves is C01-C03's business; here only 'fused == naive' is judged, with 8 eps(|v_old|+|tmp|) for FMA contraction"],
+    ),
 }
 
 
@@ -313,3 +327,13 @@ for _k, (_lt, _ln, _te) in _T4.items():
         PROPS[_k]["level_text"] = _lt; PROPS[_k]["level_note"] = _ln; PROPS[_k]["technique"] = _te
         PROPS[_k]["design_ref"] = "DESIGN.md section 7 (" + _k + ")"
 ENGINE_TEXT["h_threads"] = "C++ harness: multi-threaded workloads (private algebra, hand-over queue, shared const solver, thread churn) under TSan / ASan with the allocation ledger and a sequential-result oracle"
+
+_T5 = {
+    "C09": ("Every admissible cell of the six-axis shape matrix is executed (the discrete space is enumerated completely, values are sampled) and compared with the property's own definition of the naive evaluation; builds include -O3, AVX2/FMA and clang's alignment-assumption check so that a false or mishandled guarantee is observed.",
+            "Trusted: the harness' naive evaluation (component loops for element-wise operations, the library's own un-fused kernel on fresh copies for commutators and evolution).",
+            "runtime monitoring: differential oracle fused-vs-naive over an enumerated shape matrix, under ASan/UBSan, -O3, AVX2/FMA and clang -fsanitize=alignment; allocation ledger for the no-allocation cases"),
+}
+for _k, (_lt, _ln, _te) in _T5.items():
+    if _k in PROPS:
+        PROPS[_k]["level_text"] = _lt; PROPS[_k]["level_note"] = _ln; PROPS[_k]["technique"] = _te
+        PROPS[_k]["design_ref"] = "DESIGN.md section 6 (" + _k + ")"
